@@ -8,10 +8,11 @@ Candidates live in /verif/seeded/_candidates/<id>/ or /verif/seeded/<id>/.
 """
 import json, os, re, shutil, subprocess, sys, time
 
-VERIF = "/verif"
+VERIF = os.path.dirname(os.path.dirname(os.path.abspath(__file__)))
 REPO = "/repo"
+DREPO = os.environ.get("VP_RUN_REPO") or os.environ.get("VERIF_REPO") or "/repo"   # where detect applies the change
 ENV = dict(os.environ, GOFLAGS="-mod=mod", GOPROXY="off", GOSUMDB="off", GOTOOLCHAIN="local")
-SCRATCH = "/tmp/seedscratch"
+SCRATCH = "/tmp/seedscratch-%d" % os.getpid()
 
 
 def sh(cmd, cwd=None, timeout=1800):
@@ -97,25 +98,26 @@ def detect(ids, props, tier):
     out_all = {}
     for i in ids:
         d = cand_dir(i)
-        rc, st = sh(["git", "-C", REPO, "status", "--short"])
-        if st.strip():
-            raise SystemExit("/repo is dirty: " + st)
-        ps = props or [i.split("-")[0]]
+        if os.path.isdir(os.path.join(DREPO, ".git")) or os.path.isfile(os.path.join(DREPO, ".git")):
+            rc, st = sh(["git", "-C", DREPO, "status", "--short"])
+            if st.strip():
+                raise SystemExit(DREPO + " is dirty: " + st)
+        ps = props or [re.search(r"C\d\d", i).group(0)]
         r = {"id": i, "results": {}}
-        rc, out = sh(["git", "-C", REPO, "apply", os.path.join(d, "patch.diff")])
+        rc, out = sh(["git", "apply", os.path.join(d, "patch.diff")], cwd=DREPO)
         if rc != 0:
             r["error"] = "does not apply: " + out[-200:]
             print(json.dumps(r)); continue
         try:
             for p in ps:
                 t0 = time.time()
-                rc, out = sh([os.path.join(VERIF, "check"), p, "--tier", tier], cwd=VERIF, timeout=3600)
+                rc, out = sh("VERIF_REPO=%s %s %s --tier %s" % (DREPO, os.path.join(VERIF, "check"), p, tier), cwd=VERIF, timeout=7200)
                 vio = [l for l in out.splitlines() if l.startswith("VIOLATION")]
                 fi = [l for l in out.splitlines() if "failing input" in l]
                 br = [l.strip() for l in out.splitlines() if l.strip().startswith("BROKEN")]
                 r["results"][p] = {"exit": rc, "violation": vio[:1], "failing_input": [x[:300] for x in fi[:1]], "broken": [b[:200] for b in br[:6]], "wall": round(time.time() - t0)}
         finally:
-            sh("git checkout -q -- . && git clean -fdq", cwd=REPO)
+            sh(["git", "apply", "-R", os.path.join(d, "patch.diff")], cwd=DREPO)
         print(json.dumps(r))
         out_all[i] = r
     return out_all
